@@ -301,6 +301,12 @@ def fold_bool(c):
         return parts[0] if len(parts) == 1 else (h,) + tuple(parts)
     if h == "call" and c[1] == "isinstance" and len(c) == 4 and c[2][0] == "str" and c[3] == ("sym", "str"):
         return ("bool", True)
+    if h == "call" and c[1] == "isinstance" and len(c) == 4 and is_numeric_term(c[2]):
+        # convention: a symbol named NUM_* stands for an int/float argument
+        tys = c[3][1:] if c[3][0] == "tuple" else (c[3],)
+        names = [x[1].split(".")[-1] for x in tys if x[0] == "sym"]
+        if len(names) == len(tys):
+            return ("bool", "int" in names or "float" in names)
     if h == "call" and c[1] == "isinstance" and len(c) == 4 and c[2][0] in ("angle", "epoch"):
         kind = {"angle": "Angle", "epoch": "Epoch"}[c[2][0]]
         tys = c[3][1:] if c[3][0] == "tuple" else (c[3],)
@@ -308,6 +314,22 @@ def fold_bool(c):
         if len(names) == len(tys):
             return ("bool", kind in names)
     return c
+
+
+def is_numeric_term(t):
+    """arithmetic over literals and NUM_* symbols (the convention for int/float arguments)"""
+    h = t[0]
+    if h == "num":
+        return True
+    if h == "sym":
+        return t[1].startswith("NUM_")
+    if h in ("add", "mul"):
+        return all(is_numeric_term(x) for x in t[1:])
+    if h == "pow":
+        return is_numeric_term(t[1]) and is_numeric_term(t[2])
+    if h == "call" and t[1] in ("float", "abs", "int", "round", "floor") and len(t) >= 3:
+        return all(is_numeric_term(x) for x in t[2:])
+    return False
 
 
 def merge_phi(c, a, b):
